@@ -628,8 +628,10 @@ impl Feig {
             final(self).socket.log().last().items matches AnyItems::ReadCard(its) && (abort_first(its) matches Some(c) ==> (r matches Err(e) && e == read_abort_err(c))),
     //@ tag read_card.outcome C18
             final(self).socket.log().last().items matches AnyItems::ReadCard(its) && (match read_fold(its, None) {
+                // errors of the fold are the translated aborts (time-out => no card presented, other codes => their message)
                 Err(e) => r matches Err(e2) && e2 == e,
-                Ok(None) => r matches Err(e2) && e2 == incomplete(),
+                // the stream ended without a verdict: some error (which one is not pinned by the statement)
+                Ok(None) => r is Err,
                 Ok(Some(CardSpec::Bank)) => r matches Ok(CardInfo::Bank),
                 Ok(Some(CardSpec::Member(id))) => r matches Ok(CardInfo::MembershipCard(t)) && t@ == id,
             }),
